@@ -23,6 +23,7 @@ RULE = ('(a) for every type, every multiset of child names of size <=K (quick 3,
         'distinct by (element, sequence).')
 ASSUMPTIONS = ['uniqueness of the arrangement is decided by exact DP on the DFA, never by capped enumeration']
 EXHAUSTIVE = False
+FULL_ALPHABET_TYPES = ('credit', 'harmony')
 
 
 def check_perm(tkey, el, perm, target):
@@ -110,7 +111,9 @@ def Fb(run, sym, r):
     return {'kind': 'compatible-child-rejected', 'type': run.tkey, 'site': r.site,
             'input': {'element': run.el, 'ops': run.ops}, 'observed': '%s for %s with held %s' % (
                 r.etype, sym, run.names()[:-0] if False else run.names()),
-            'expected': 'accepted: the children can still be arranged into (part of) a valid sequence'}
+            'expected': 'accepted: the children can still be arranged into (part of) a valid sequence',
+            # what took effect: the children accepted so far (in the order they were accepted) and the refused one
+            'norm': {'type': run.tkey, 'held': run.names(), 'rejected': sym}}
 
 
 def step_b(run, a):
@@ -176,8 +179,10 @@ def run_shard(ctx, shard, acc):
         return
     if shard['mode'] == 'b-exh':
         for t, els in shard['types']:
-            syms = symbol_subset(t, 6 if ctx.quick else 8)
-            for n in (2, 3):
+            # the types of the open finding KF-M-compatible-child-rejected are explored over their FULL alphabet:
+            # inside that bound the finding is an exact list of (held children, refused child)
+            syms = s.alphabet(t) if t in FULL_ALPHABET_TYPES else symbol_subset(t, 6 if ctx.quick else 8)
+            for n in (2, 3) if t not in FULL_ALPHABET_TYPES else (2, 3, 4):
                 for combo in itertools.product(syms, repeat=n):
                     run, f = execute_b(els[0], [['add', a] for a in combo])
                     if run.e is None:
